@@ -105,6 +105,7 @@ type config struct {
 	DisableSuggestion bool    `json:"disable_suggestion"`
 	HTTP              bool    `json:"http"`
 	WS                bool    `json:"websocket"` // with HTTP: requests travel as graphql-transport-ws subscribe messages
+	SSE               bool    `json:"sse,omitempty"` // with HTTP: POST with Accept: text/event-stream
 	TokenLimit        int     `json:"parser_token_limit,omitempty"`
 }
 
@@ -149,6 +150,9 @@ func newServer(cfg config) *server {
 		if cfg.WS {
 			s.hs.AddTransport(transport.Websocket{Upgrader: websocket.Upgrader{CheckOrigin: func(*http.Request) bool { return true }}})
 			s.ts = httptest.NewServer(s)
+		}
+		if cfg.SSE {
+			s.hs.AddTransport(transport.SSE{})
 		}
 		s.hs.AddTransport(transport.POST{})
 		s.hs.SetQueryCache(s.cache)
@@ -225,11 +229,36 @@ func (s *server) run(st step, plan univ.Plan) *outcome {
 			r := httptest.NewRequest("POST", "/query", strings.NewReader(string(b)))
 			r.Header.Set("Content-Type", "application/json")
 			r.Header.Set("X-Verif-Req", id)
+			if s.cfg.SSE {
+				r.Header.Set("Accept", "text/event-stream")
+			}
 			w := httptest.NewRecorder()
 			s.ServeHTTP(w, r)
 			out.status = w.Code
 			out.body = w.Body.String()
-			if v, err := sjson.Parse(w.Body.Bytes()); err == nil && v.Kind == sjson.Object {
+			if s.cfg.SSE && strings.HasPrefix(w.Header().Get("Content-Type"), "text/event-stream") {
+				// every `next` event carries one response
+				for _, ev := range strings.Split(out.body, "\n\n") {
+					if !strings.Contains(ev, "event: next") {
+						continue
+					}
+					i := strings.Index(ev, "data: ")
+					if i < 0 {
+						continue
+					}
+					v, err := sjson.Parse([]byte(ev[i+6:]))
+					if err != nil || v.Kind != sjson.Object {
+						out.panicked = "SSE next event is not a JSON object: " + ev
+						continue
+					}
+					if d := v.Get("data"); d != nil && d.Kind != sjson.Null {
+						out.hasData = true
+					}
+					if e := v.Get("errors"); e != nil && e.Kind == sjson.Array && len(e.Arr) > 0 {
+						out.hasErrors = true
+					}
+				}
+			} else if v, err := sjson.Parse(w.Body.Bytes()); err == nil && v.Kind == sjson.Object {
 				if d := v.Get("data"); d != nil && d.Kind != sjson.Null {
 					out.hasData = true
 				}
@@ -476,7 +505,7 @@ func (a *agg) flush() {
 
 // judge applies the oracle to one request.
 func (s *server) judge(ag *agg, st step, o *outcome, hist *history, idx int, mode string) {
-	x := expect{exts: s.cfg.Exts, rejectStage: st.V.Stage, fields: st.V.fields, rootFields: st.V.rootFields, streamed: s.cfg.WS}
+	x := expect{exts: s.cfg.Exts, rejectStage: st.V.Stage, fields: st.V.fields, rootFields: st.V.rootFields, streamed: s.cfg.WS || s.cfg.SSE}
 	if st.RejectKind != "" {
 		x.rejectStage, x.rejectExt = st.RejectKind, st.RejectExt
 	}
@@ -894,6 +923,23 @@ func main() {
 		rep.Distinct("extension_lists", cfg.Exts.String())
 	}
 	lap("websocket_sequential")
+
+	// 4b'. the same over server-sent events (again a transport with its own refuse-or-dispatch code)
+	for c := 0; c < ev.Pick(6, 40); c++ {
+		cfg := config{Probe: probes[c%len(probes)], Cache: caches[(c+1)%len(caches)], DisableSuggestion: c%2 == 0, HTTP: true, SSE: true, Exts: randExts(r)}
+		if c == 0 {
+			cfg.Exts = extList{63, 63}
+		}
+		s := newServer(cfg)
+		ks := famByProbe[cfg.Probe]
+		for hI := 0; hI < 2; hI++ {
+			k := ks[r.Intn(len(ks))]
+			runHistory(s, makeHistory(cfg.Probe, k, families[k], cfg.Exts, r.Int63()), "sse-sequential")
+		}
+		s.harvest()
+		rep.Distinct("extension_lists", cfg.Exts.String())
+	}
+	lap("sse_sequential")
 
 	// 4d. the deprecated entry point handler.GraphQL(es, options...): its ResolverMiddleware and
 	// RequestMiddleware options are extensions too, first option outermost
